@@ -31,7 +31,7 @@ theorem isOrfB_iff (w : Seq) (s e : Nat) : isOrfB w s e = true ↔ IsOrf w s e :
       simpa using this
     · intro p hp
       by_cases h2 : p % 3 = s % 3
-      · by_cases h3 : isStart (codonAt w p) = true
+      · by_cases h3 : isStartDoc (codonAt w p) = true
         · obtain ⟨q, a, b, c, d⟩ := h.first p hp h2 h3
           exact Or.inr ⟨q, b, ⟨a, c⟩, d⟩
         · simp_all
